@@ -849,6 +849,7 @@ func subTLVTags(f *ssa.Function, isSeal func(ssa.Instruction) bool) []int64 {
 }
 
 func c04r5(c *core.Ctx) {
+	requiredRoutes(c)
 	p := c.P
 	pk := p.Pkg("hap/pair")
 	if pk == nil {
